@@ -159,6 +159,8 @@ def run(case):
     res = CaseResult()
     up = case["up"]
     randomised = any(up.get(k) for k in RANDOM_KEYS)
+    if randomised and up.get("restarts.use_soft_restarts", True) is False and not any(up.get(k) for k in RANDOM_KEYS if k != "restarts.increase_npt"):
+        randomised = False       # hard restarts re-initialise with coordinate directions even when npt grows: deterministic, compared
     o1, h1 = one_run(case, case["seeds"][0])
     untouched(res, h1)
     if isinstance(o1.exc, ValueError) and "read-only" in str(o1.exc):
